@@ -1046,11 +1046,19 @@ class IfBlock(Block, start=IfBeginStmt, end=EndIfStmt):
         else_stmt = None
         for stmt in body:
             if isinstance(stmt, ElseIfStmt):
+                if cur_if_cond is None:
+                    raise SyntaxError(
+                        stmt.loc_start,
+                        msg='ELSEIF is not allowed after ELSE')
                 elseif_stmts.append(stmt)
                 if_blocks.append((cur_if_cond, cur_if_body))
                 cur_if_body = stmt.then_stmts
                 cur_if_cond = stmt.cond
             elif isinstance(stmt, ElseStmt):
+                if cur_if_cond is None:
+                    raise SyntaxError(
+                        stmt.loc_start,
+                        msg='Only one ELSE is allowed in an IF block')
                 if_blocks.append((cur_if_cond, cur_if_body))
                 else_stmt = stmt
                 cur_if_cond = None
@@ -1327,7 +1335,7 @@ class SelectBlock(Block, start=SelectStmt, end=EndSelectStmt):
         if not body:
             return SelectBlock(start_stmt.value, [])
 
-        if not isinstance(body[0], CaseStmt):
+        if not isinstance(body[0], (CaseStmt, CaseElseStmt)):
             raise SyntaxError(
                 loc=body[0].loc_start,
                 msg='Statements illegal between SELECT CASE and CASE')
